@@ -408,12 +408,17 @@ class _Norm(ast.NodeTransformer):
                 return ast.copy_location(ast.Compare(left=n.values[0].left, ops=[op], comparators=[tup]), n)
         return n
 
+    def visit_GeneratorExp(self, n):
+        r = self.visit_ListComp(n)
+        return r
+
     def visit_ListComp(self, n):
         self.generic_visit(n)
         # N16: [f(v) for v in (c1, c2, ..)] over a short constant tuple  ->  [f(c1), f(c2), ..]
         if len(n.generators) == 1 and not n.generators[0].ifs and isinstance(n.generators[0].target, ast.Name) and \
                 isinstance(n.generators[0].iter, (ast.Tuple, ast.List)) and 1 <= len(n.generators[0].iter.elts) <= 8 and \
-                all(isinstance(e, ast.Constant) for e in n.generators[0].iter.elts):
+                all(isinstance(e, (ast.Constant, ast.Name)) or (isinstance(e, ast.Attribute) and isinstance(e.value, ast.Name))
+                    for e in n.generators[0].iter.elts):
             import copy as _copy
             var = n.generators[0].target.id
 
@@ -422,7 +427,7 @@ class _Norm(ast.NodeTransformer):
                     s.c = c
 
                 def visit_Name(s, x):
-                    return ast.copy_location(ast.Constant(value=s.c.value), x) if x.id == var and isinstance(x.ctx, ast.Load) else x
+                    return ast.copy_location(_copy.deepcopy(s.c), x) if x.id == var and isinstance(x.ctx, ast.Load) else x
             return ast.copy_location(ast.List(elts=[S(c).visit(_copy.deepcopy(n.elt)) for c in n.generators[0].iter.elts], ctx=ast.Load()), n)
         return n
 
@@ -523,7 +528,7 @@ class _Norm(ast.NodeTransformer):
             if isinstance(st, ast.AugAssign) and isinstance(st.op, ast.Add) and isinstance(st.target, ast.Name) and isinstance(st.value, ast.List):
                 tgt, elts = st.target.id, st.value.elts
             elif isinstance(st, ast.Expr) and isinstance(st.value, ast.Call) and isinstance(st.value.func, ast.Attribute) and st.value.func.attr == 'extend' and \
-                    isinstance(st.value.func.value, ast.Name) and len(st.value.args) == 1 and isinstance(st.value.args[0], ast.List):
+                    isinstance(st.value.func.value, ast.Name) and len(st.value.args) == 1 and isinstance(st.value.args[0], (ast.List, ast.Tuple)):
                 tgt, elts = st.value.func.value.id, st.value.args[0].elts
             if tgt is not None and elts and not any(isinstance(e, ast.Starred) for e in elts):
                 for e in elts:
@@ -661,9 +666,12 @@ def _rename_params(fn, ref_params, stats, rel, qual):
 
 def new_locals(rel, qual, fn):
     """locals of a function that the reference function does not have (after renaming): candidates for N10"""
-    ref = reference().get(rel, {}).get(qual)
+    mod = reference().get(rel, {})
+    ref = mod.get(qual)
     if ref is None:
-        return set()
+        if qual not in mod.get('__functions__', ()):
+            return set()        # a function the reference does not know at all
+        ref = []                # known, and it had no locals: every local it has now is new
     have = set(n for n, s in ref)
     return set(n for n, s in signatures(fn)) - have
 
